@@ -1,4 +1,5 @@
 import Hifi.Spec.Calendar
+import Hifi.Spec.Epoch
 /-
   Independent specification of the epoch text forms (C10, C13).  Import-free apart from the
   specification calendar.  Grammars are GENERATORS: a text is in the grammar iff it is `render…` of
@@ -81,6 +82,51 @@ def denoted (f : Form) (scale : String) (d : Date) (h mi s : Int) (nd : Nat) (fr
     with second < 60, a fraction that fits its digits, an offset up to 23:59 -/
 def inGrammar (d : Date) (h mi s : Int) (nd : Nat) (frac : Int) (oh om : Int) : Bool :=
   validDate d && decide (1 ≤ d.y ∧ d.y ≤ 9999 ∧ 0 ≤ h ∧ h < 24 ∧ 0 ≤ mi ∧ mi < 60 ∧ 0 ≤ s ∧ s < 60 ∧
+    nd ≤ 9 ∧ 0 ≤ frac ∧ frac < 10 ^ nd ∧ 0 ≤ oh ∧ oh < 24 ∧ 0 ≤ om ∧ om < 60)
+
+/-! ### second = 60 (RFC 3339 §5.7: "60 is only allowed at the end of months in which a leap second occurs")
+
+  `:60` labels an INSERTED second, and the label is that of the scale's own clock: with a written offset
+  the local fields show `:60` at hh:mm = 23:59 + offset (RFC 3339 §5.8 gives `1990-12-31T15:59:60-08:00`).
+  So a text with second 60 is valid exactly when its fields MINUS the written offset are 23:59 of a day
+  whose next day is an entry of the leap-second table (`leapLabelOwn`); every other `:60` (another minute,
+  another day) must be rejected.
+  * In UTC the text then denotes the instant one second after 23:59:59.f of that day, INSIDE the inserted
+    second (`denotedLeapInstant`).
+  * The other eight scales have no inserted seconds, but C08 requires the constructors to accept
+    second = 60 at 23:59 of those days "in any time scale" (pinned by the suite for TAI) and they give
+    the count of 23:59:59.f; the parser must agree with the constructors: same acceptance, that count
+    (`lastLabelNs − refOffsetNs`). -/
+
+/-- the written offset in minutes, signed as written (0 for the forms without offset) -/
+def offsetMin (f : Form) (neg : Bool) (oh om : Int) : Int :=
+  if f.hasOffset then (if neg then -1 else 1) * (oh * 60 + om) else 0
+
+/-- minutes from 1900-01-01T00:00 of the label the fields show in the scale's own clock -/
+def ownMinute (d : Date) (h mi : Int) (offMin : Int) : Int := dayNumber d * 1440 + h * 60 + mi - offMin
+
+/-- do the fields, once the offset is removed, show 23:59 of a day that precedes an entry of the table? -/
+def leapLabelOwn (leapDates : List Date) (d : Date) (h mi : Int) (offMin : Int) : Bool :=
+  decide (ownMinute d h mi offMin % 1440 = 1439) &&
+  leapDates.any (fun L => decide (dayNumber L = ownMinute d h mi offMin / 1440 + 1))
+
+/-- is `:60` of these fields the label of an inserted second (UTC only)? -/
+def leapSecondLabel (leapDates : List Date) (scale : String) (d : Date) (h mi : Int) (offMin : Int) : Bool :=
+  decide (scale = "UTC") && leapLabelOwn leapDates d h mi offMin
+
+/-- ns from 1900-01-01T00:00:00 of the scale's calendar to `:59.f` of that minute: the last label before
+    the inserted second (for UTC this is the UTC count itself) -/
+def lastLabelNs (d : Date) (h mi : Int) (offMin : Int) (nd : Nat) (frac : Int) : Int :=
+  (ownMinute d h mi offMin * 60 + 59) * 1000000000 + fracNs nd frac
+
+/-- the instant (TAI ns) a valid `:60.f` text denotes: one second after the instant of `:59.f`
+    (`tbl`: the IERS table as (NTP seconds, TAI−UTC)) -/
+def denotedLeapInstant (tbl : List (Int × Int)) (d : Date) (h mi : Int) (offMin : Int) (nd : Nat) (frac : Int) : Int :=
+  utcToTai tbl (lastLabelNs d h mi offMin nd frac) + 1000000000
+
+/-- the fields of a second-60 text are otherwise inside the quantifier -/
+def inGrammar60 (d : Date) (h mi : Int) (nd : Nat) (frac : Int) (oh om : Int) : Bool :=
+  validDate d && decide (1 ≤ d.y ∧ d.y ≤ 9999 ∧ 0 ≤ h ∧ h < 24 ∧ 0 ≤ mi ∧ mi < 60 ∧
     nd ≤ 9 ∧ 0 ≤ frac ∧ frac < 10 ^ nd ∧ 0 ≤ oh ∧ oh < 24 ∧ 0 ≤ om ∧ om < 60)
 
 /-! ### the RFC 3339 text of a UTC epoch and the ISO 8601 formatter text -/
@@ -212,5 +258,28 @@ def wellFormedTail (rest : List Nat) : Bool :=
          | none => false)
       | _ => false
     else false
+
+/-- the offset (minutes, signed as written) of a well-formed tail; 0 when none is written -/
+def tailOffsetMin (rest : List Nat) : Int :=
+  let r1 : List Nat := match rest with
+    | 46 :: r => r.dropWhile isDig
+    | _ => rest
+  match r1 with
+  | sgn :: r =>
+    if sgn = 43 ∨ sgn = 45 then
+      match twoDigits r with
+      | some (oh, 58 :: r2) =>
+        (match twoDigits r2 with
+         | some (om, _) => (if sgn = 45 then -1 else 1) * (oh * 60 + om)
+         | none => 0)
+      | _ => 0
+    else 0
+  | [] => 0
+
+/-- must a well-formed stamp be rejected?  Out-of-range fields (a second of 60 judged as 59), or a second of
+    60 whose label, once the written offset is removed, is not 23:59 of a leap-second day -/
+def stampMustReject (leapDates : List Date) (d : Date) (h mi s : Int) (rest : List Nat) : Bool :=
+  if s = 60 then mustReject leapDates d h mi 59 0 || !(leapLabelOwn leapDates d h mi (tailOffsetMin rest))
+  else mustReject leapDates d h mi s 0
 
 end Hifi.Spec
